@@ -11,7 +11,7 @@ AXES = {
     'explicit_start': [None, True, False],
     'explicit_end': [None, True, False],
     'version': [None, None, (1, 1), (1, 2)],
-    'tags': [None, None, {'!e!': 'tag:example.com,2000:'}, {'!': '!loc-', '!!': 'tag:yaml.org,2002:'}],
+    'tags': [None, None, {'!e!': 'tag:example.com,2000:'}, {'!': '!loc-', '!!': 'tag:yaml.org,2002:'}, {'!y!': 'tag:yaml.org,2002:'}],
     'sort_keys': [True, False],
 }
 
